@@ -19,7 +19,7 @@ from cvf.vals import Val
 
 PROPERTY = "C13"
 LEVEL = "translation_validation"
-CASE_TIMEOUT = {"quick": 300, "thorough": 2400}
+CASE_TIMEOUT = {"quick": 300, "thorough": 600}
 ENCODED = [
     "the autograd BACKWARD ATen stream of out[b,o,k].backward() through the compiled circuit: layers (cirkit.backend.torch.layers.inner/optimized/input), parameter nodes, address-book gathers (index -> index_put accumulate), TorchPointerParameter indexing",
     "cirkit.backend.torch.semiring.LSESumSemiring.apply_reduce (max shift: amax backward masks), SumProductSemiring",
